@@ -825,7 +825,7 @@ fn gen_mux(args: &Args, r: &mut Rng) -> (Vec<MuxCase>, Vec<BatchCase>) {
                 }
             }
         }
-        let nrand = if args.thorough() { 300 } else { 30 };
+        let nrand = if args.thorough() { 1000 } else { 30 };
         for _ in 0..nrand {
             let n = match r.below(5) {
                 0 => r.range(1, 4),
@@ -837,7 +837,7 @@ fn gen_mux(args: &Args, r: &mut Rng) -> (Vec<MuxCase>, Vec<BatchCase>) {
         }
     }
     let mut batches = Vec::new();
-    let nb = if args.thorough() { 60 } else { 8 };
+    let nb = if args.thorough() { 150 } else { 8 };
     for kind in 0..3 {
         for i in 0..nb {
             let n = if i == 0 { 1 } else { r.range(2, if i % 2 == 0 { 12 } else { 40 }) as usize };
@@ -1361,7 +1361,7 @@ fn gen_dead(args: &Args, r: &mut Rng) -> Vec<DeadCase> {
             vec!["close", "reset", "badspec", "badlen", "shortlen", "cut"]
         };
         for fault in &faults {
-            let reps = if args.thorough() { 12 } else { 3 };
+            let reps = if args.thorough() { 40 } else { 3 };
             for rep in 0..reps {
                 let n = match rep {
                     0 => 0,
@@ -1447,7 +1447,7 @@ fn main() {
                 run_tmo_case(&h, &mut out, &format!("t{t}"), kind, mode, 0);
                 t += 1;
             }
-            let races = if args.thorough() { 40 } else { 8 };
+            let races = if args.thorough() { 120 } else { 8 };
             for _ in 0..races {
                 run_tmo_case(&h, &mut out, &format!("t{t}"), kind, "race", rng.below(25));
                 t += 1;
@@ -1455,7 +1455,7 @@ fn main() {
         }
         let mut c = 0;
         for kind in 1..3 {
-            let reps = if args.thorough() { 6 } else { 2 };
+            let reps = if args.thorough() { 20 } else { 2 };
             for _ in 0..reps {
                 run_cancel_case(&h, &mut out, &format!("c{c}"), kind, "wait");
                 c += 1;
